@@ -21,6 +21,9 @@ import (
 	"github.com/gardenbed/emerge/internal/vh/ref"
 )
 
+// ruleMore describes what was added to the exploration in the build phase.
+const ruleMore = "; stray text may be glued to the previous token and may be a byte sequence that is not UTF-8"
+
 func TestMain(m *testing.M) { rec.Main(m, "C20") }
 
 const rule = "valid token sequences (printed models) with one insertion, deletion, replacement or truncation at a drawn position, and texts with a stray character or an unterminated string, pattern or comment at a drawn position, " +
@@ -175,7 +178,7 @@ var strays = []string{"#", "@lef", "@lefty", "$", "$a", `"abc`, `""`, "'x'", "/a
 var tails = []string{"", ";", " ; x = y ;", " ) ) ] }}", " @left \"a\" TK = /x/ start = ;", " # $ %", " /* open", "\n\n grammar g ; start = \"a\" ;\n"}
 
 func TestErrorsAtFirstOffendingToken(t *testing.T) {
-	rec.Rule(rule)
+	rec.Rule(rule + ruleMore)
 	rec.Assume("texts stay below one buffer half")
 	opts := gen.SpecOpts{MaxRules: 3, Depth: 3, Literals: []string{"a", "b", `\"`}, Tokens: []string{"TK", "NUM"}, Directives: 2, RuleHandles: true, DupRules: true, EmptyRules: true}
 	rec.Check(t, 5000, 200000, func(t *rapid.T) {
@@ -240,7 +243,7 @@ func TestErrorsAtFirstOffendingToken(t *testing.T) {
 // every position of fixed specifications: single-token deletion and truncation at every token index
 func TestEveryPositionOfFixedSpecs(t *testing.T) {
 	rec.Begin(t)
-	rec.Rule(rule)
+	rec.Rule(rule + ruleMore)
 	if rec.Shard() != 0 {
 		t.Skip("seed independent: shard 0 only")
 	}
@@ -281,7 +284,7 @@ func TestEveryPositionOfFixedSpecs(t *testing.T) {
 // the command-line tool reports the same position on its error stream, with the name of the input file
 func TestCLIDiagnostics(t *testing.T) {
 	rec.Begin(t)
-	rec.Rule(rule)
+	rec.Rule(rule + ruleMore)
 	if rec.Shard() != 0 {
 		t.Skip("shard 0 only")
 	}
